@@ -21,7 +21,7 @@ from dataclasses import dataclass, field
 from core import Case
 
 PID = "C08"
-LEAN_MODULES = ["KrroodVerif.Props.C08", "KrroodVerif.Props.C08Build"]
+LEAN_MODULES = ["KrroodVerif.Props.C08", "KrroodVerif.Props.C08Build", "KrroodVerif.Props.C08Tables"]
 THEOREMS = [
     "KrroodVerif.Rdr.C08_build",
     "KrroodVerif.Rdr.C08_build_layout",
@@ -41,7 +41,63 @@ THEOREMS = [
     "KrroodVerif.Rdr.C08_cex_third_alternative",
     "KrroodVerif.Rdr.C08_cex_nested_refinement",
     "KrroodVerif.Rdr.C08_cex_next_same_binding",
+    # second tie (tables regenerated from the AST): Props/C08Tables.lean
+    "KrroodVerif.Rdr.build_eq_buildWith",
+    "KrroodVerif.Rdr.buildA_eq_buildAWith",
+    "KrroodVerif.Rdr.evalT_eq_evalWith",
+    "KrroodVerif.Rdr.C08_end_to_end_of_tables",
+    "KrroodVerif.Rdr.C08_end_to_end_tables",
 ]
+# proof obligations regenerated from /repo's CURRENT source on every run (harness/translate/c08_translate.py)
+TRANSLATED = ["KrroodVerif.Rdr.C08_translated_surgery_eq_model", "KrroodVerif.Rdr.C08_translated_selectors_eq_model",
+              "KrroodVerif.Rdr.C08_end_to_end_translated"]
+
+
+def extra_obligations():
+    """Second tie: regenerate the surgery table (`rule.refinement`, `rule.alternative_or_next`) and the selector decision
+    tables (`ExceptIf` / `Alternative` / `Next`, `update_conclusion`) from /repo's CURRENT source and have the kernel
+    re-check that they equal the hand tables `Rdr.surgery` / `Rdr.selectors` — for which `build_eq_buildWith` /
+    `evalT_eq_evalWith` prove that the table interpreters ARE the model's builder and evaluator — and `C08_end_to_end`
+    restated for the regenerated tables."""
+    import os
+    import re
+    import subprocess
+    import core
+    from translate.c08_translate import generate_parts
+    short = {n.split(".")[-1]: n for n in TRANSLATED}
+    try:
+        text, errs = generate_parts(core.REPO)
+    except Exception as e:  # the translator itself failed: every obligation is open
+        return [{"name": n, "ok": False, "detail": f"translator failed: {type(e).__name__}: {e}"} for n in TRANSLATED]
+    errs = {short.get(k, k): v for k, v in errs.items()}
+    tmp = core.LEAN_DIR / ".lake" / "audit"
+    tmp.mkdir(parents=True, exist_ok=True)
+    f = tmp / f"C08Translated_{os.getpid()}.lean"
+    f.write_text(text + "".join(f"#print axioms {n}\n" for n in TRANSLATED))
+    try:
+        p = subprocess.run(["lake", "env", "lean", str(f)], cwd=str(core.LEAN_DIR), capture_output=True, text=True, timeout=600)
+    finally:
+        try:
+            f.unlink()
+        except OSError:
+            pass
+    out = " ".join(((p.stdout or "") + (p.stderr or "")).split())
+    tables = text[text.find("namespace KrroodVerif.Rdr.Translated"):text.find("end KrroodVerif.Rdr.Translated")]
+    res = []
+    for n in TRANSLATED:
+        if n in errs:
+            res.append({"name": n, "ok": False, "axioms": None, "detail": errs[n]})
+            continue
+        m = re.search(r"'" + re.escape(n) + r"' depends on axioms: \[([^\]]*)\]", out)
+        none = re.search(r"'" + re.escape(n) + r"' does not depend on any axioms", out)
+        ax = [a.strip() for a in m.group(1).split(",")] if m else ([] if none else None)
+        ok = ax is not None and set(ax) <= core.ALLOWED_AXIOMS  # a failed `decide` leaves `sorryAx` in ITS axioms line
+        # a table equality that fails is not added to the environment (no axioms line), and the theorem that uses it
+        # then fails too: each obligation is judged by its own `#print axioms` line
+        res.append({"name": n, "ok": ok, "axioms": ax,
+                    "detail": "regenerated tables:\n" + tables + (p.stdout or "")[-1500:] + (p.stderr or "")[-800:]})
+    return res
+
 MODEL_FUNCTION = ("Rdr.modelA = Rdr.buildA (authoring schedule: several `with rule:` blocks) / Rdr.model = Rdr.build (BState.step/doRefinement/doAltOrNext) + Rdr.evalT / Rdr.evalK "
                   "(Model/Rule.lean); specification Rdr.fire / Rdr.spec")
 TRUSTED = [
